@@ -54,3 +54,32 @@ Theorem C03_relist_always_possible : forall s, reach s -> not_stopping s = true 
   exists l s', run st act step s l = Some s' /\ step s' ATick <> None.
 Proof. exact relist_always_possible. Qed.
 Print Assumptions C03_relist_always_possible.
+
+(* "subscribers receive the create/update/delete events that account for the
+   difference", over whole runs and per key: from the moment the controller is
+   ready, what it publishes on a key is a well-formed history from its cache
+   entry then to its cache entry at the end *)
+From KC Require Import CacheEvents FilterRace FilterRaceGen FilterChain CacheHistory ControllerTree.
+Theorem C03_controller_publishes_wf_history : forall s is k,
+  k_ready s = true -> wf_cache (k_cache s) ->
+  hist_wf (clookup k (k_cache s)) (kevs k (kevents s is)) /\
+  pfold (clookup k (k_cache s)) (kevs k (kevents s is)) = clookup k (k_cache (krun s is)).
+Proof. exact controller_publishes_wf_history. Qed.
+Print Assumptions C03_controller_publishes_wf_history.
+
+(* end to end (C03 + C02 + C06): any server history, any watch behaviour that
+   delivers only entries of the log, any earlier lists, a last list that is a
+   snapshot of the server; below the controller a chain of filtered nodes of
+   any depth with any interleavings: when every node has consumed everything,
+   the entry at the bottom is the conjunction of the chain's filters applied to
+   the SERVER's accepted object *)
+Theorem C03_server_to_leaf : forall F (l : slog) pre post v listed k levels fs bottom,
+  let s0 := Controller.krun (Controller.kinit F) pre in
+  log_ok l ->
+  Forall (watch_from_log l) (pre ++ post) -> is_list_of l listed ->
+  k_ready s0 = true ->
+  k_stopped (krun s0 post) = None ->
+  chain (clookup k (k_cache s0)) (kevs k (kevents s0 (post ++ [IList (LROk v listed)]))) levels = Some (fs, bottom) ->
+  bottom = FilterSubProps.fview (fun o => forallb (fun G => G o) fs) (accepted_view F l k).
+Proof. exact server_to_leaf. Qed.
+Print Assumptions C03_server_to_leaf.
